@@ -57,7 +57,13 @@ func (fr *Frame) val(v ssa.Value) *Value {
 }
 
 func (e *Engine) funcID(fn *ssa.Function) int {
-	return 1000000 + e.typeID(types.NewNamed(types.NewTypeName(token.NoPos, nil, "func$"+fn.String(), nil), types.Typ[types.Int], nil))
+	if id, ok := e.funcIDs[fn]; ok {
+		return id
+	}
+	id := 1000000 + len(e.funcIDs)
+	e.funcIDs[fn] = id
+	e.funcByID[id] = fn
+	return id
 }
 
 func (fr *Frame) constVal(n *ssa.Const) *Value {
@@ -316,6 +322,12 @@ func (fr *Frame) newSlice(t types.Type, ln, cp Term) *Value {
 		key, _ := e.heapKey("M", el, j)
 		x.heapSetAt(fr.cur, key, x.ctx.Name("M", Store(x.heapGet(fr.cur, key), ref, zeroOf(ArrOf(cpn.Sort)))), ref)
 	}
+	if len(e.layout(el)) == 1 && e.layout(el)[0].Sort == SInt {
+		if fr.cur.content == nil {
+			fr.cur.content = map[string]*contentRec{}
+		}
+		fr.cur.content[ref.S] = &contentRec{off: IntLit(0), ln: ln, seq: &SeqV{Len: ln, At: func(i Term) Term { return IntLit(0) }}}
+	}
 	return &Value{T: t, C: []Term{ref, IntLit(0), ln, cp}}
 }
 
@@ -458,6 +470,15 @@ func (fr *Frame) arith(t types.Type, v Term) *Value {
 	var w Term
 	if lo.Sign() == 0 {
 		w = EMod(v, BigLit(m))
+	} else if b.Kind() == types.Int || b.Kind() == types.Int64 {
+		if fr.x.cur.fc != nil && fr.x.cur.fc.WrapAround {
+			w = App(SInt, "wrapS", v, BigLit(lo), BigLit(m))
+		} else {
+			// int arithmetic is mathematical; staying in range is a safety obligation
+			// ("overflow"), assumed afterwards like the other safety kinds
+			fr.safety("overflow", And(Le(BigLit(lo), v), Le(v, BigLit(hi))), "int-overflow")
+			return &Value{T: t, C: []Term{fr.x.ctx.NameAlways("a", v)}}
+		}
 	} else {
 		w = App(SInt, "wrapS", v, BigLit(lo), BigLit(m))
 	}
@@ -567,8 +588,16 @@ func (fr *Frame) binop(op token.Token, a, b *Value, rt types.Type, at ssa.Value)
 		}
 		return fr.fromUnsigned(c.Name("and", bitop(c, "&", fr.toUnsigned(av, a.T), fr.toUnsigned(bv, b.T), bitWidth(rt))), rt)
 	case token.OR:
+		if k, ok := litVal(bv); ok && k.Sign() >= 0 && isUnsigned(rt) {
+			// x | k = x + k - (x & k)
+			return &Value{T: rt, C: []Term{c.Name("or", Sub(Add(av, bv), andConst(av, k)))}}
+		}
 		return fr.fromUnsigned(c.Name("or", bitop(c, "|", fr.toUnsigned(av, a.T), fr.toUnsigned(bv, b.T), bitWidth(rt))), rt)
 	case token.XOR:
+		if k, ok := litVal(bv); ok && k.Sign() >= 0 && isUnsigned(rt) {
+			// x ^ k = x + k - 2*(x & k)
+			return &Value{T: rt, C: []Term{c.Name("xor", Sub(Add(av, bv), Mul(IntLit(2), andConst(av, k))))}}
+		}
 		return fr.fromUnsigned(c.Name("xor", bitop(c, "^", fr.toUnsigned(av, a.T), fr.toUnsigned(bv, b.T), bitWidth(rt))), rt)
 	case token.AND_NOT:
 		if k, ok := litVal(bv); ok && k.Sign() >= 0 {
